@@ -1106,7 +1106,19 @@ func isLocalHelperClosure(mc *ssa.MakeClosure) bool {
 		switch x := ref.(type) {
 		case *ssa.Call:
 			if x.Call.Value != ssa.Value(mc) {
-				return false
+				// handed to a helper of the module that does nothing with it but call it, synchronously (rReservoir(r, k, func()
+				// (T, bool, error) { … s.Next(ctx) … })): its uses are uses by this function
+				handed := false
+				if cal := staticCallee(&x.Call); cal != nil && cal.Blocks != nil && curCtx != nil && curCtx.inModule(cal) {
+					for ai, a := range x.Call.Args {
+						if a == ssa.Value(mc) && onlyCallsParam(cal, ai) {
+							handed = true
+						}
+					}
+				}
+				if !handed {
+					return false
+				}
 			}
 			called = true
 		case *ssa.Store:
